@@ -273,3 +273,30 @@ def cjk_int_value(work, V, tier='thorough'):
                 if drift <= 3:
                     V.note('mechanism-drift: get_int_value(%r): model %s, code %s' % (t, finals[t], g))
     return [{'module': 'CJKIntValue', 'cfg': cfg, 'distinct_states': r['distinct'], 'violation': r['violation'], 'written_forms_evaluated_by_code': n, 'drift': drift}]
+
+
+def mod_push_pop(work, V):
+    """ModPushPop.tla: the modifier push / pop of BaseMergedParser.parse restores start, length and text for every entity
+    text made of (before|after|since|=)? (around)? entity with one or two blanks; the variant without the around reset in
+    the since block must fail; every input is parsed by the real English merged parser and compared."""
+    ok = tlc.run(work, 'ModPushPop', cfg='MC_ModPushPop.cfg', dump=True, timeout=600)
+    bad = tlc.run(work, 'ModPushPop', cfg='MC_ModPushPop_noreset.cfg', timeout=600)
+    if not ok['ok']:
+        V.note('mechanism-drift: ModPushPop violates %s' % ok['violation'])
+    finals = {}
+    for st in tlc.read_dump(ok['dump'], where='pc = "done"'):
+        finals[(st['inp']['text'], st['inp']['start'])] = [st['res']['start'], st['res']['length'], st['res']['text']]
+    keys = sorted(finals)
+    cases = [{'api': 'modpushpop', 'items': [{'text': t, 'start': s0} for t, s0 in keys]}]
+    obs = pool.run_cases(cases, init_name='datetime', batch=1, timeout=120.0)
+    got = obs[0].get('out') or []
+    drift = 0
+    for k, g in zip(keys, got + [None] * (len(keys) - len(got))):
+        # the code returns a value only when the inner parser understands the stripped entity; compare when it does
+        if isinstance(g, list) and g[3] and g[:3] != finals[k]:
+            drift += 1
+            if drift <= 3:
+                V.note('mechanism-drift: BaseMergedParser.parse(%r at %d): model %s, code %s' % (k[0], k[1], finals[k], g))
+    parsed = sum(1 for g in got if isinstance(g, list) and g[3])
+    return [{'module': 'ModPushPop', 'cfg': 'MC_ModPushPop.cfg', 'distinct_states': ok['distinct'], 'violation': ok['violation'], 'entities_parsed_by_code': parsed, 'of': len(keys), 'drift': drift},
+            {'module': 'ModPushPop', 'cfg': 'MC_ModPushPop_noreset.cfg (around flag not cleared in the since block)', 'distinct_states': bad['distinct'], 'violation': bad['violation'], 'expected_violation': 'Restored'}]
